@@ -50,6 +50,9 @@ static void roundtrip(polyseed_data* s, const pv_mseed* m, pv_mlang* L, unsigned
     char want[2048]; size_t wn = pv_m_encode(m, L, coin, want, sizeof want);
     if (strcmp(want, g_out) || n != wn) { pv_violation("C01/phrase-differs-from-model", "[%s] %s coin %u %s: '%s' (ret %zu) vs model '%s'", how, L->name_en, coin, pv_mseed_str(m), pv_esc(g_out), n, pv_esc(want)); return; }
     char* in = pv_exact_str(g_out);
+    /* a wallet may inject its dependencies again at any moment (here: between writing the phrase down and restoring from it);
+     * neither the phrase nor the enabled features may notice */
+    if (g_rng2 && pv_randn(g_rng2, 6) == 0) { pv_inject_default(); PV_COUNT("roundtrip.reinjected_between_encode_and_decode", 1); }
     /* explicit */
     polyseed_data* a = NULL;
     int st = pv_api_decode_explicit(in, coin, L->lib, &a);
